@@ -126,6 +126,26 @@ def has_float(st, depth=0):
 
 
 def mark_text_output(rnd, m):
+    enums = [t for t in m.types if isinstance(t, M.Enum)]
+    for e in enums:
+        if rnd.random() < 0.5:
+            e.enum_case = rnd.choice(["kCamelCase", "kCamelCase, SHOUTY_CASE"])
+    used = set()
+    for st in [t for t in m.types if isinstance(t, M.Struct)]:
+        for f in st.fields:
+            for g in [f] + (f.anon or []):
+                if g.typ is not None and g.typ.target is not None:
+                    used.add(id(g.typ.target))
+    for st in [t for t in m.types if isinstance(t, M.Struct) and t.kind == "struct"]:
+        if enums and not st.params and id(st) not in used and rnd.random() < 0.8:
+            # make sure enum values by name and by number occur in the text
+            en = rnd.choice(enums)
+            t = M.Type("enum", 8, name=en.name)
+            t.target = en
+            f = M.Field("en_extra", ("n", C1.struct_maxlen(st)), ("n", 1), t)
+            st.fields.append(f)
+            if getattr(st, "static_size", None) is not None:
+                st.static_size = None
     for st in [t for t in m.types if isinstance(t, M.Struct)]:
         deps, allrefs = struct_refs(st)
         for f in st.fields:
